@@ -108,9 +108,39 @@ def has_exists(n):
     return False
 
 
+def has_step_starting_with_quote(n):
+    k = n[0]
+    if k in ("cmp", "exists"):
+        return any(st[0] == "k" and isinstance(st[1], str) and st[1].startswith("'") for st in n[1][1])
+    if k in ("and", "or", "oand", "oor", "ofb"):
+        return any(has_step_starting_with_quote(x) for x in n[1])
+    if k in ("obs", "qual"):
+        return has_step_starting_with_quote(n[1])
+    return False
+
+
+def has_consecutive_indices(n):
+    k = n[0]
+    if k in ("cmp", "exists"):
+        steps = n[1][1]
+        return any(a[0] == "i" and b[0] == "i" for a, b in zip(steps, steps[1:]))
+    if k in ("and", "or", "oand", "oor", "ofb"):
+        return any(has_consecutive_indices(x) for x in n[1])
+    if k in ("obs", "qual"):
+        return has_consecutive_indices(n[1])
+    return False
+
+
 def vkey(key, ast_norm):
-    """EXISTS has no counterpart in the object model (recorded finding): whatever goes wrong on a pattern that uses it is that mechanism"""
-    return "exists-unmodelled" if has_exists(ast_norm) and key.split(":")[0] in ("create-raised", "printed-invalid", "meaning-changed") else key
+    """EXISTS has no counterpart in the object model (recorded finding): whatever goes wrong on a pattern that uses it is that mechanism.
+    Likewise a path step whose name begins with a quote character: the printer takes it for an already quoted step (recorded finding)."""
+    if has_exists(ast_norm) and key.split(":")[0] in ("create-raised", "printed-invalid", "meaning-changed"):
+        return "exists-unmodelled"
+    if has_consecutive_indices(ast_norm) and key.split(":")[0] in ("create-raised", "printed-invalid", "meaning-changed", "assembly-raised"):
+        return "consecutive-index-steps-unmodelled"
+    if has_step_starting_with_quote(ast_norm) and (key == "printed-invalid" or key.startswith("meaning-changed:path") or key.startswith("not-a-fixed-point")):
+        return "step-name-starting-with-quote"
+    return key
 
 
 def judge_text(ctx, text, ast_norm, version, route, witness):
@@ -299,6 +329,8 @@ def wl_patterns(ctx, rng, i):
             judge_text(ctx, printed, norm, "2.1", "printed-text-after-equivalence-check", w)
     # programmatic assembly
     try:
+        if has_consecutive_indices(norm):
+            raise KeyError("consecutive index steps have no model class (recorded finding)")
         with warnings.catch_warnings():
             warnings.simplefilter("ignore")
             model = build(ast)
@@ -355,7 +387,48 @@ def wl_v20(ctx, rng, i):
     ctx.count("patterns_v20")
 
 
+def wl_operand_reuse(ctx, rng, i):
+    """Model objects used as operands are not changed by the expressions built from them: the same comparison objects give the
+    same text before and after other expressions (also refused ones) were built from them."""
+    import stix2
+    t1, t2 = rng.sample(["file", "process", "ipv4-addr", "x-custom", "user-account"], 2)
+    mk = lambda t, k: stix2.EqualityComparisonExpression("%s:%s" % (t, rng.choice(["name", "size", "value", "x_prop"])), k)    # noqa: E731
+    a, c, b = mk(t1, 1), mk(t1, 2), mk(t2, 3)
+    w = {"operands": [str(a), str(c), str(b)]}
+    try:
+        before_and, before_or = str(stix2.AndBooleanExpression([a, c])), str(stix2.OrBooleanExpression([a, c]))
+    except Exception as e:
+        ctx.violation("assembly-raised:" + type(e).__name__, "same-type AND/OR raised %s" % type(e).__name__, dict(w, exception=repr(e)))
+        return
+    steps = []
+    for _ in range(rng.choice([1, 2, 3])):
+        kind = rng.choice(["and-cross-type", "or-cross-type", "and-same", "observation"])
+        try:
+            if kind == "and-cross-type":
+                stix2.AndBooleanExpression([a, b])            # refused (recorded finding cross-type-and-refused); what matters is what it leaves behind
+            elif kind == "or-cross-type":
+                stix2.OrBooleanExpression([a, b])
+            elif kind == "and-same":
+                stix2.AndBooleanExpression([a, c, mk(t1, 4)])
+            else:
+                stix2.ObservationExpression(stix2.OrBooleanExpression([a, b]))
+        except ValueError:
+            pass
+        steps.append(kind)
+    ctx.ev()
+    ctx.count("operand_reuse_cases")
+    ctx.nontrivial("operand-reuse", tuple(steps))
+    try:
+        after_and, after_or = str(stix2.AndBooleanExpression([a, c])), str(stix2.OrBooleanExpression([a, c]))
+    except Exception as e:
+        ctx.violation("operand-changed-by-expression", "after %s, AND/OR of the same same-type operands raises %s" % (steps, type(e).__name__), dict(w, history=steps, exception=repr(e)))
+        return
+    if (after_and, after_or) != (before_and, before_or):
+        ctx.violation("operand-changed-by-expression", "the same operands print differently after %s" % (steps,), dict(w, history=steps, before=[before_and, before_or], after=[after_and, after_or]))
+
+
 WORKLOADS = [
+    Workload("operand-reuse", wl_operand_reuse, quick=60, thorough=3000),
     Workload("patterns", wl_patterns, quick=1500, thorough=200000),
     Workload("grammar20", wl_v20, quick=300, thorough=40000),
 ]
